@@ -313,6 +313,41 @@ func RunOnce(s Scenario, rep int, r *rand.Rand) (events []interface{}) {
 	return append([]interface{}{reset}, b.Env.Events...)
 }
 
+// StaleTok is the first token of values that belong to ANOTHER use of the target's value sets (wrapperCall): no
+// scenario supplies them, so an execution that receives one has been handed a value nobody gave to this call.
+const StaleTok = 900000
+
+// wrapperCall builds a second function over the target's own input and output sets (BuildFunc(f.Input(),
+// f.Output(), cb), the documented way to wrap a function) and calls it once with values of its own.  What that
+// call leaves in the shared sets must not show in the call of the target that follows.
+func (b *Built) wrapperCall() {
+	in, out := b.Target.Input(), b.Target.Output()
+	w, err := am.BuildFunc(in, out, func(in, out *am.ValueSet) error {
+		for _, v := range out.Values() {
+			v.Value = reflect.Zero(v.Type)
+		}
+		return nil
+	})
+	if err != nil {
+		return
+	}
+	var args []am.Arg
+	for i, v := range in.Values() {
+		tn := TypeName(v.Type)
+		if strings.HasPrefix(tn, "?") {
+			return
+		}
+		val := MkValue(tn, StaleTok+i).Interface()
+		switch {
+		case v.Name != "":
+			args = append(args, am.NamedSubtype(v.Name, val, v.Subtype))
+		default:
+			args = append(args, am.TypedSubtype(val, v.Subtype))
+		}
+	}
+	w.Call(args...)
+}
+
 // Execute performs the operation of b.S (call / convert / redefine + follow-up call) on the built
 // objects and appends the observations to the environment.  A panic becomes a ret event.
 func (b *Built) Execute(r *rand.Rand) {
@@ -329,6 +364,9 @@ func (b *Built) Execute(r *rand.Rand) {
 	args := b.Args(r)
 	switch s.Mode {
 	case "call":
+		if s.Target.Form != "built" && s.Bad == "" && r.Intn(4) == 0 {
+			b.wrapperCall()
+		}
 		res := b.Target.Call(args...)
 		env.emit(b.classify(res, s.Phase0))
 		if s.Family == "C16" && s.NDef > 0 && s.Bad == "" {
